@@ -1,0 +1,56 @@
+//go:build verif
+
+// Exports for the runtime-monitoring harness in /verif (property C17).
+// No call site in the package; nothing here changes behaviour.
+
+package discover
+
+import "net"
+
+// Wire structures of the discovery protocol (all fields are exported already).
+type (
+	VerifPing        = ping
+	VerifPong        = pong
+	VerifFindnode    = findnode
+	VerifNeighbors   = neighbors
+	VerifRPCNode     = rpcNode
+	VerifRPCEndpoint = rpcEndpoint
+)
+
+// Packet type bytes.
+const (
+	VerifEthPing      = ethpingPacket
+	VerifEthPong      = ethpongPacket
+	VerifEthFindnode  = ethfindnodePacket
+	VerifEthNeighbors = ethneighborsPacket
+	VerifAquaPing     = aquapingPacket
+	VerifAquaPong     = aquapongPacket
+	VerifAquaFindnode = aquafindnodePacket
+	VerifAquaNeighbor = aquaneighborsPacket
+
+	VerifHeadSize = headSize
+	VerifMacSize  = macSize
+)
+
+// VerifDecodePacket is decodePacket. The first result is one of *VerifPing,
+// *VerifPong, *VerifFindnode, *VerifNeighbors (or nil).
+func VerifDecodePacket(netcompat bool, buf []byte) (interface{}, NodeID, []byte, error) {
+	p, id, hash, err := decodePacket(netcompat, buf)
+	if p == nil {
+		return nil, id, hash, err
+	}
+	return p, id, hash, err
+}
+
+// VerifEncodePacket is encodePacket.
+func VerifEncodePacket(netcompat bool, priv *PrivateKey, ptype byte, req interface{}) (packet, hash []byte, err error) {
+	return encodePacket(netcompat, priv, ptype, req)
+}
+
+// VerifMakeEndpoint is makeEndpoint.
+func VerifMakeEndpoint(addr *net.UDPAddr, tcpPort uint16) VerifRPCEndpoint {
+	return makeEndpoint(addr, tcpPort)
+}
+
+// VerifMaxNeighbors is the number of nodes the node itself puts in one packet.
+func VerifMaxNeighbors() int { return maxNeighbors }
